@@ -12,6 +12,7 @@ import (
 	"testing"
 
 	mocker "github.com/tencent/goom"
+	"github.com/tencent/goom/internal/patch"
 	"github.com/tencent/goom/zverif/corpus"
 	"github.com/tencent/goom/zverif/vkit"
 	"pgregory.net/rapid"
@@ -27,6 +28,7 @@ type tstate struct {
 	seq    [][]reflect.Value // ret: configured results, in order
 	cursor int
 	stale  bool // a When object from an earlier Return survives an Apply (finding C12/stale-when)
+	orphan bool // mocked through a builder that has been dropped since
 }
 
 func argsFor(fn *corpus.Fn, codes []int64) []reflect.Value {
@@ -86,7 +88,13 @@ const nTargets = 4
 func runHist(ci interface{}, s *vkit.Stats) (err error) {
 	c := ci.(*histCase)
 	b := mocker.Create()
-	defer func() { b.Reset() }() // b may have been replaced by a "reset" operation
+	dropped := false
+	defer func() {
+		b.Reset() // b may have been replaced by a "reset" operation
+		if dropped {
+			patch.UnpatchAll() // mocks whose builder was dropped cannot be reset through the API any more
+		}
+	}()
 	st := map[int]*tstate{}
 	get := func(k int) *tstate {
 		if st[k] == nil {
@@ -105,6 +113,10 @@ func runHist(ci interface{}, s *vkit.Stats) (err error) {
 		k := (vkit.Pick(op.I[0], nTargets) + vkit.Pick(op.I[5], 1+len(corpus.Fns)/nTargets)*nTargets) % len(corpus.Fns)
 		fn := corpus.Fns[k]
 		t := get(k)
+		if t.orphan && (op.K == "apply" || op.K == "applymf" || op.K == "ret") {
+			s.Exclude("re-mock-of-a-target-whose-builder-was-dropped")
+			continue
+		}
 		switch op.K {
 		case "apply":
 			t.rec = &corpus.Rec{}
@@ -152,10 +164,32 @@ func runHist(ci interface{}, s *vkit.Stats) (err error) {
 			afterGC = true
 		case "churn":
 			vkit.Churn(2000)
+		case "dropgc":
+			// the builder goes out of reach without a Reset (as in `mocker.Create().Func(f).Apply(cb)`): the mocks must
+			// keep working "until reset", also after collections and heap reuse
+			b = mocker.Create()
+			dropped = true
+			vkit.GC()
+			vkit.ChurnSmall(40000)
+			vkit.GC()
+			afterGC = true
+			s.Class("builder-dropped-then-gc")
+			for _, t := range st {
+				t.stale = false
+				if t.kind != "" {
+					t.orphan = true
+				}
+			}
 		case "reset":
 			b.Reset()
 			b = mocker.Create()
-			st = map[int]*tstate{}
+			keep := map[int]*tstate{}
+			for k, t := range st {
+				if t.orphan {
+					keep[k] = t // not reachable from this builder: stays mocked
+				}
+			}
+			st = keep
 		case "call":
 			form := vkit.Pick(op.I[1], corpus.NumForms)
 			depth := 0
@@ -244,6 +278,9 @@ func runHist(ci interface{}, s *vkit.Stats) (err error) {
 				if afterGC {
 					s.Class("call/after-gc")
 				}
+				if t.orphan {
+					s.Class("call/mock-of-dropped-builder-after-gc")
+				}
 				if depth > 0 {
 					s.Class("call/after-stack-growth")
 				}
@@ -262,7 +299,7 @@ func runHist(ci interface{}, s *vkit.Stats) (err error) {
 	return nil
 }
 
-var opGen = vkit.OpGen([]string{"apply", "applymf", "ret", "call", "gc", "churn", "reset"}, []int{4, 2, 3, 12, 1, 1, 1}, 6)
+var opGen = vkit.OpGen([]string{"apply", "applymf", "ret", "call", "gc", "churn", "reset", "dropgc"}, []int{4, 2, 3, 12, 1, 1, 1, 1}, 6)
 
 func TestVerifC01(t *testing.T) {
 	quiet()
